@@ -274,6 +274,9 @@ class Gen:
             tspan = [r.randint(lo, hi), r.randint(lo, hi)]
         g = sorted(r.randint(-5, 5) for _ in range(4))
         vspan, fspan = [g[1], g[2]], ([g[0], g[3]] if r.random() < 0.6 else [])
+        if fspan and r.random() < 0.3:
+            # nothing makes the fail span contain the valid span: narrower than it, overlapping it, disjoint from it
+            fspan = sorted(r.randint(-5, 5) for _ in range(2))
         if r.random() < 0.3:
             vspan.reverse()
         zspan = []
